@@ -56,7 +56,7 @@ TranscOK(ev) ==
          IF OutOfNormal(ev) THEN TRUE
          ELSE IF IsIntegerD(ev.y) /\ (ev.y.e + NumDigits(ev.y.c) <= 2) /\ Cmp(IntMag(ev.y), <<64>>) <= 0
                  /\ NumDigits(x.c) * ToInt(IntMag(ev.y)) <= 400 THEN IntPowOK(ev)
-         ELSE IF x.n \/ ev.h.f # FIN \/ IsIntegerD(ev.y) THEN TRUE                         \* no hint: not judged
+         ELSE IF x.n \/ ev.h.f # FIN THEN TRUE                                             \* no hint: not judged
          ELSE IF ~HintOK(x.c, x.e, ev.h.n, ev.h.c, ev.h.e) THEN TRUE \/ PrintT(<<"UNDECIDED-HINT", ev.op>>)
          ELSE ~got.n /\ PowOK(ev.y.n, ev.y.c, ev.y.e, ev.h.n, ev.h.c, ev.h.e, got.c, got.e, p)
     [] OTHER -> TRUE
@@ -100,10 +100,12 @@ Verdict_a(ev) ==
                      /\ (ev.op \in {"tointx", "tointv"} => (got.e = 0 \/ (got.e > 0 /\ ev.x.e > 0)))
                      /\ (ev.op = "reduce" => (IF IsZero(got.c) THEN got.e = 0 ELSE LastDigit(got.c) # 0))>>,
        <<"root",  (ev.op \in {"sqrt", "cbrt"} /\ w.k = "skip" /\ ev.err = "" /\ ev.ctx.p > 0) =>
-                     /\ got.f = FIN /\ got.n = ev.x.n
-                     /\ (\/ IsZero(got.c) /\ Bit(ev.fl, F_SUBN)                         \* rounded to zero below the normal range
-                         \/ Adj(got) < ev.ctx.emin \/ Adj(got) > ev.ctx.emax          \* outside the normal range: not claimed (DESIGN C11)
-                         \/ Bit(ev.fl, F_SUBN) \/ Bit(ev.fl, F_OVF)
+                     \/ (got.f = INF /\ Bit(ev.fl, F_OVF) /\ got.n = ev.x.n)                                    \* overflow: not claimed
+                     \/ /\ got.f = FIN /\ got.n = ev.x.n
+                        /\ (\/ (ev.op = "sqrt" /\ Bit(ev.fl, F_SUBN) /\ ~Bit(ev.fl, F_OVF)             \* sub-normal square roots: rounded once to Etiny
+                              /\ SqrtSubOK(ev.x.c, ev.x.e, got.c, got.e, Etiny(ev.ctx), Bit(ev.fl, F_INEXACT)))
+                         \/ (ev.op = "cbrt" /\ (IsZero(got.c) \/ Bit(ev.fl, F_SUBN) \/ Adj(got) < ev.ctx.emin))   \* Cbrt below the normal range: not claimed
+                         \/ Adj(got) > ev.ctx.emax \/ Bit(ev.fl, F_OVF)                                      \* overflow: not claimed (DESIGN C11)
                          \/ IF ev.op = "sqrt" THEN SqrtOK(ev.x.c, ev.x.e, got.c, got.e, ev.ctx.p, Bit(ev.fl, F_INEXACT))
                             ELSE CbrtOK(ev.x.c, ev.x.e, got.c, got.e, ev.ctx.p, Bit(ev.fl, F_INEXACT)))>>,
        <<"transc", (ev.op \in {"exp", "ln", "log10", "pow"} /\ w.k = "skip" /\ ev.err = "" /\ ev.ctx.p > 0) => TranscOK(ev)>>,
